@@ -137,7 +137,10 @@ def build(run: Run):
                                      "opcodes": ()})
     seen, sites = es.closure(["polyglot.identify_pytorch_file_format"])
     READ_ONLY = {"stdout", "stderr", "read(arg)", "seek(arg)", "close(arg)", "fs-read(file)", "fs-open-read(caller-path)", "fs-open-tar", "fs-open-zip",
-                 "fs-read(package-data)", "import(static)"}
+                 "fs-read(package-data)", "import(static)",
+                 # a codec looked up under a computed name (check_numpy decodes the header with the codec numpy's version table names): an
+                 # import of an encodings module, which writes nothing — C01's concern where the name comes from the input, not this clause's
+                 "import(computed-codec)"}
     for q in sorted(seen):
         if not q.startswith("polyglot."):
             continue            # Pickled.load / StackedPickle.load and below: C01's closure
